@@ -159,6 +159,8 @@ def main(argv):
         _SEED = 0
     t0 = time.time()
     os.makedirs(WORK, exist_ok=True)
+    import shutil
+    shutil.rmtree(os.path.join(WORK, 'replay', prop), ignore_errors=True)
     os.makedirs(os.path.join(VERIF, 'evidence'), exist_ok=True)
     evpath = os.path.join(VERIF, 'evidence', prop + '.json')
     try:
